@@ -566,6 +566,19 @@ def gen_dead_arm(loader, check, replay_on=True):
     c06.gen_selected(loader, check, replay_on)
 
 
+def gen_history(loader, check, replay_on=True):
+    """'exactly one consuming use ... nothing initialised is left unconsumed' for every history of the compiler object: an operand of an
+    earlier behaviour (whose raw use is spent) must not be handed out again - nothing registered survives reset(), and no operand holder
+    other than the reset one stays reachable (C14's reset contract, holder clauses)"""
+    from . import c14
+    saved = getattr(check, "ob_filter", None)
+    check.ob_filter = r"reset#(no-stale-holder|modifies|total)|#reset\.holder"
+    try:
+        c14.gen_reset(loader, check, replay_on)
+    finally:
+        check.ob_filter = saved
+
+
 def dispatch(loader, check, module=None, func=None, kwargs=None, replay_on=True):
     import importlib
     kw = dict(kwargs)
@@ -583,6 +596,7 @@ def tasks():
     # argument lists of sub-routine calls: values are read exactly once, a borrowed parameter passed on goes through il_read (C08's contracts)
     ts += [("contracts.c08", "gen_task", {"what": w}) for w in ("build_arg_list", "call_text")]
     ts += [("contracts.c12", "gen_dead_arm", {})]
+    ts += [("contracts.c12", "gen_history", {})]
     return ts
 
 
@@ -600,6 +614,7 @@ def generate_reduced(loader, check):
     c08.gen_build_arg_list(loader, check, False)
     c08.gen_call_text(loader, check, False)
     gen_dead_arm(loader, check, False)
+    gen_history(loader, check, False)
 
 
 def run(check: Check):
